@@ -1763,6 +1763,18 @@ class C11(Prop):
                 res.nontrivial(case)
             if M.get("wf") != "A":
                 continue
+            # the decoded view of every filled string slot is the decoded view of what `get` returns for that path
+            sS = I.get("singleS", "").split(",")
+            for fld in ("manyS", "manyuS"):
+                gS = I.get(fld)
+                if gS in (None, "skip", "Err"):
+                    continue
+                gS = gS.split(",")
+                if len(gS) == len(sS):
+                    for k, (a, b) in enumerate(zip(gS, sS)):
+                        if a != "N" and b != "E" and a != b:
+                            res.oracle_failures.append(dict(key=f"C11|{fld}|slot-decodes-differently-from-get", case=case, detail=f"slot {k}: {a[:80]} get {b[:80]}"))
+                            break
             for fld in ("many", "manyu"):
                 got = I.get(fld)
                 if got is None or got == "skip":
